@@ -5,7 +5,7 @@ import hashsigs
 
 RULE = ("all 6 hashes x parameter lists of 1..8 levels (every W; heights H2/H5, one H10) x random seeds: private key blob and public key bytes compared with the "
         "Impl model and with an independent transcription of the hash-sigs derivation (tools/rfc8554.py); internal derivations (root seed/I, child seed/I, "
-        "randomizer, tree nodes) compared through hooks; 32-byte Seed objects with non-zero tails for the truncated hashes; leaves of tall trees (hook) on both sides of 2^8 and 2^16")
+        "randomizer, tree nodes) compared through hooks; 32-byte Seed objects with non-zero tails for the truncated hashes; leaves of tall trees (hook) on both sides of 2^8 and 2^16; public keys of levels 2, 3, ... inside signatures of 3..8-level keys vs the hash-sigs derivation")
 ASSUMPTIONS = ["for SHA-256/32 the cisco hash-sigs tool shipped in the repository (tests/demo) is run on the same seed and parameter list and its key files are compared byte for byte",
                "for the other five hashes (which hash-sigs does not implement) the oracle is an independent transcription of the same construction (tools/rfc8554.py)"]
 
@@ -39,6 +39,27 @@ def run(ctx):
         if unhx(f["vk"]) != pk:
             ctx.fail("public key differs from the hash-sigs derivation", [c.line], f["vk"], pk.hex())
         keys.append((H, ps, seed, blob))
+    # trees below the top level: the public keys (type codes, tree identifier, root) that a signature carries for levels 2, 3, ... must be
+    # the hash-sigs derivation along the path of the counter (the level-by-level descent, not only the derivation function)
+    deep = []
+    for i, ps in enumerate([[(3, 1)] * 3, [(3, 1), (4, 1), (3, 1), (3, 1)], [(3, 1)] * 5, [(3, 1), (3, 5), (3, 1)], [(4, 1)] * 8]):
+        H = ALL_H[i % 6]
+        seed = rng.bytes_(HASHES[H])
+        tot = sum(heights_of(ps))
+        for cnt in sorted({0, 5, (1 << tot) - 1, rng.randrange(1 << tot), rng.randrange(1 << tot)}):
+            deep.append(Case(sign_line(H, sk_blob(H, ps, seed, cnt), b"deep"), "sign/child-public-keys/L%d" % len(ps), {"x": (H, ps, seed, cnt)}))
+    for c, a, b in ctx.both(deep, lambda c, a: cls_of(a)):
+        H, ps, seed, cnt = c.meta["x"]
+        if not a.startswith("ok"):
+            ctx.fail("signing failed", [c.line], a[:100], "ok")
+            continue
+        n = HASHES[H]
+        _, lv = parse_hss_sig(n, unhx(fields(a)["sig"]))
+        _, rv = parse_hss_sig(n, R.sign(H, ps, seed, cnt, b"deep", ls_of=lambda n_, w: {1: 7, 2: 6, 4: 4, 8: 0}[w]))
+        for lvl, (l, r) in enumerate(zip(lv[:-1], rv[:-1])):
+            if l["child_pk"] != r["child_pk"]:
+                ctx.fail("public key differs from the hash-sigs derivation: tree of level %d (counter %d)" % (lvl + 2, cnt), [c.line], l["child_pk"].hex(), r["child_pk"].hex())
+                break
     # the real hash-sigs tool (SHA-256/32, heights >= 5 only)
     if hashsigs.available():
         hs = hashsigs.HashSigs()
@@ -79,7 +100,7 @@ def run(ctx):
             if LMS_H[l] <= 5:
                 cases2.append(Case("node H=%s seed=%s id=%s ots=%d lms=%d r=%d" % (H, s.hex(), i.hex(), o, l, r), "derive/node", {"x": (t, r)}))
         # leaves of tall trees (one LM-OTS key each, no tree needed): leaf numbers on both sides of 2^8 and 2^16
-        if len(cases) and c is cases[0] or ctx.tier == "thorough":
+        if len(cases) and (c is cases[0] or (ctx.tier == "thorough" and c in cases[:6])):
             for lt in (6, 7, 8, 9):
                 h = LMS_H[lt]
                 tt = R.Tree(H, s, i, rng.choice([3, 4]), lt)
